@@ -453,7 +453,7 @@ def skipUnderPromotions : Explore := { prio := mvvlva, pick := fun m => !m.isUnd
 def onePlyIfChecked {P : Type} (g : Game P) (p : P) (alpha beta : Score) (st : SState) : Score × SState :=
   if !g.inCheck p then (Score.heuristicScore (g.eval p), { st with nodes := st.nodes + 1 })
   else
-    let (res, st') := alphaBetaSearch g fullExploration .static p 1 alpha beta st
+    let (res, st') := alphaBetaSearch g (constEx fullExploration) .static p 1 alpha beta st
     match res with
     | none => (Score.invalidScore, { st' with nodes := st.nodes })
     | some r => (r.score, { st' with nodes := st.nodes + r.nodes })
